@@ -181,7 +181,14 @@ def main():
         modtxt = open(os.path.join(hdir, "go.mod")).read()
         open(os.path.join(hdir, "go.mod"), "w").write(re.sub(r"(replace github.com/ohler55/slip => ).*", r"\g<1>" + REPO, modtxt))
         vh = os.path.join(WORK, "vh")
-        rc, out = run(["go", "build", "-tags", "verif", "-o", vh, "./cmd/vh"], cwd=hdir, env=GOENV)
+        # hook-dependent harness code is guarded by the extra tag `verifhooks`, switched on when the
+        # repository carries the verif hook files (pkg/repl/verif_on.go)
+        tags = "verif"
+        if os.path.exists(os.path.join(REPO, "pkg", "repl", "verif_on.go")):
+            tags += ",verifhooks"
+        if os.environ.get("VERIF_EXTRA_TAGS"):
+            tags += "," + os.environ["VERIF_EXTRA_TAGS"]
+        rc, out = run(["go", "build", "-tags", tags, "-o", vh, "./cmd/vh"], cwd=hdir, env=GOENV)
         if rc != 0:
             # the repository no longer compiles with the harness: report as machinery error
             log(out); log("harness build failed"); return 2
